@@ -360,3 +360,87 @@ func ruleApplyAll(c *Ctx) {
 	}
 	c.minInstances("conditions controlling applier calls", n, 10)
 }
+
+// ---------------------------------------------------------------------------
+// R-SHORTREAD (C19 C09): FileIO reports a read cut short by the end of the file as io.EOF, MMap as a
+// short copy with a nil error; the entry decoder treats both as "what is there is zero" and the scan loops
+// accept EOF. The byte count returned by RWManager.ReadAt must therefore not be turned into a different
+// error: in the decoder the count is either ignored or only leads to io.EOF.
+
+func ruleShortRead(c *Ctx) {
+	readAt := c.P.MustFunc("(*DataFile).ReadAt")
+	subjects := []*ssa.Function{readAt}
+	calls(readAt, func(ci ssa.CallInstruction) {
+		if cal := ci.Common().StaticCallee(); cal != nil && c.P.inModule(cal) && cal.Blocks != nil {
+			subjects = append(subjects, cal)
+		}
+	})
+	n := 0
+	for _, f := range subjects {
+		k := 0
+		calls(f, func(ci ssa.CallInstruction) {
+			cc := ci.Common()
+			if !(cc.IsInvoke() && cc.Method.Name() == "ReadAt" && isRWManager(cc.Value.Type())) {
+				return
+			}
+			n++
+			k++
+			c.touch(f)
+			v, ok := ci.(ssa.Value)
+			if !ok {
+				return
+			}
+			var cnt *ssa.Extract
+			for _, r := range *v.Referrers() {
+				if ex, ok := r.(*ssa.Extract); ok && ex.Index == 0 {
+					cnt = ex
+				}
+			}
+			detail := fmt.Sprintf("the byte count of segment read #%d is not turned into an error", k)
+			if cnt == nil || !hasRealReferrers(cnt) {
+				c.ok(fnName(f), detail, c.P.ipos(ci), "count ignored")
+				return
+			}
+			// the count is used: every If that tests it must not control a return of a non-EOF error
+			var offender ssa.Instruction
+			ei := errResultIndex(f)
+			for _, ifi := range ifsOf(f) {
+				uses := false
+				backSlice(ifi.Cond, func(x ssa.Value) {
+					if x == ssa.Value(cnt) {
+						uses = true
+					}
+				})
+				if !uses {
+					continue
+				}
+				for si := range ifi.Block().Succs {
+					for _, b := range exclusiveRegion(f, succEdge{ifi.Block(), si}) {
+						if r, ok := b.Instrs[len(b.Instrs)-1].(*ssa.Return); ok && ei >= 0 && classifyRetOperand(r, ei) == retNonNil {
+							isEOF := true
+							for _, ev := range resolve(r.Results[ei]) {
+								ld, ok := ev.(*ssa.UnOp)
+								g, ok2 := (func() (*ssa.Global, bool) {
+									if !ok {
+										return nil, false
+									}
+									gg, ok := ld.X.(*ssa.Global)
+									return gg, ok
+								})()
+								if !ok2 || g.Pkg == nil || g.Pkg.Pkg.Path() != "io" || g.Name() != "EOF" {
+									isEOF = false
+								}
+							}
+							if !isEOF && offender == nil {
+								offender = r
+							}
+						}
+					}
+				}
+			}
+			c.check(offender == nil, fnName(f), detail, c.P.ipos(ci), "", "a short read (which MMap reports as a short copy with nil error near the end of a segment, FileIO as io.EOF) is turned into an error other than io.EOF: no scan loop treats it as end of data, so Open fails on a segment with fewer free bytes than a header when it is read through MMap, and FileIO and MMap disagree")
+		})
+	}
+	c.Sites += n
+	c.minInstances("RWManager.ReadAt calls in the entry decoder", n, 2)
+}
